@@ -110,6 +110,10 @@ SPECS["C12"] = dict(
         "Woodpile.Props.C12.oob_none",
         "Woodpile.Props.C12.std_search_ok",
         "Woodpile.Props.C12.find_sound",
+        # track misc2 (claim-audit, C12 table)
+        "Woodpile.Props.C12.find_tag_sound",
+        "Woodpile.Props.C12.empty_message",
+        "Woodpile.Props.C12.empty_message_trailing_bytes",
     ],
     families=[dict(name="tlvview", quick=3000, thorough=1500000)],
     technique="Lean 4 proof (all byte strings; checked slicing so that panic-freedom is a theorem) + model/implementation correspondence",
@@ -152,6 +156,7 @@ SPECS["C11"] = dict(
         "Woodpile.Props.C11.calls_len_eq",
         "Woodpile.Props.C11.nested_lawful_every_depth",
         "Woodpile.Props.C11.dval_lawful",
+        "Woodpile.Props.C11.view_find_tag",
         "Woodpile.Props.C11S.sink_agnostic_any_pieces",
         "Woodpile.Props.C11S.sink_agnostic_driver",
     ],
@@ -358,6 +363,9 @@ SPECS["C15"] = dict(
         "Woodpile.Props.C15.zdeque_step_is_length_image",
         "Woodpile.Props.C15.zdeque_run_is_length_image",
         "Woodpile.Props.C15.zdeque_run_spec",
+        # track misc2 (claim-audit, C15 table): the checked Deref slice the drivers print
+        "Woodpile.Props.C15.deref_is_view",
+        "Woodpile.Props.C15.run_deref_refines_list",
     ],
     families=[dict(name="sdeque", quick=3000, thorough=200000)],
     technique="Lean 4 proof (representation invariant = check_rep, per-operation refinement of a List deque, induction over "
